@@ -143,7 +143,8 @@ func genPoolGeom(t *rapid.T) *model.G {
 		return g
 	}
 	return gen.Tree(t, gen.TreeOpts{
-		Layouts: gen.Layouts4, Floats: gen.SmallInt | gen.Moderate, MaxDepth: 2, MaxParts: 3, MaxPts: 5,
+		// (zeros of either sign among the ordinates: -0 and 0 are equal and not the same)
+		Layouts: gen.Layouts4, Floats: gen.SmallInt | gen.Moderate | gen.Zeros, MaxDepth: 2, MaxParts: 3, MaxPts: 5,
 		Valid: true, FixEmptyCollections: true, PEmpty: 15, SRID: gen.SRIDs,
 	})
 }
